@@ -134,7 +134,7 @@ def run(chk):
         b = lrender.make_batch(files)
         try:
             lrender.report_build_problems(chk, b, files)
-            recs = lrender.run_envs(b, files, lambda f, t: [gen_tmpl.gen_env(rng) for _ in range(4)])
+            recs = lrender.run_envs(b, files, lambda f, t: [gen_tmpl.gen_env(rng) for _ in range(4)], as_built=True)
         finally:
             b.close()
         nbad = 0
